@@ -30,13 +30,27 @@ RULE = (
     "/ 3-5 object leaves, a few of ALL their valid mappings, both orientations), plus random inputs up to "
     "10 object leaves / 6 species; with and without synteny labels, VERTICAL and HORIZONTAL, node sizes "
     "from a stub TeX measurer (dyadic, 1..100, chosen per branch index).  Non-trivial: the reconciliation "
-    "has at least one full loss or one transfer."
+    "has at least one full loss or one transfer.  PLACEMENT (every case of both tiers, on the text tikz.render "
+    "returns): the coordinates of every event node, loss marker and transfer arrow are read back from the TikZ "
+    "statements and located in the REAL layout (species boxes and trunks as layout.compute returned them; neither "
+    "the Lean model nor the drawing code's formulas): the OWN AREA of a species is the column of its trunk from the "
+    "start of its box to before the first box of a child; the multiset of (own area, kind) of the event nodes "
+    "must be the multiset of (mapped species, evaluator's kind) of the object nodes (an extant gene is located by "
+    "the leading edge of its disc); every loss marker must lie in the own area of the species where the loss "
+    "occurs, strictly nearer across the tree to the trunk of the child species that LOST the copy than to the "
+    "trunk of the child that kept it, the multiset of (species, lost child) being the one derived from the paths "
+    "of the reconciliation; the transfer arrows must pair one-to-one with the transfers, the arrow of v leaving "
+    "the box of v's node and ending at the anchor of v's transferred child inside that child's own area.  A "
+    "statement whose coordinates cannot be read is a note in the evidence, never an alarm."
 )
 TRUSTED = [
     "model: lean/SRVerif/Model/Layout.lean (computeBranches = _compute_branches/_add_losses, "
     "drawBranch = statement kinds of _tikz_draw_branches)",
     "pseudo-genes are matched structurally by (lost lineage, species), not by object identity",
     "harness/stubtex.py replaces superrec2.utils.tex.measure (no TeX engine in the sandbox)",
+    "placement clause: the species boxes / trunks of the layout returned by layout.compute are taken as the "
+    "regions of the picture (that they nest and do not overlap is C14); positions are compared with a tolerance "
+    "of 1e-3 (the text carries 4 decimals)",
 ]
 ASSUMPTIONS = [
     "species tree and object tree are binary; every species of the reconciliation is a node of the species tree",
@@ -375,10 +389,281 @@ def point_value(s):
 
 
 # --------------------------------------------------------------------------
+# WHERE the drawing puts its marks (read from the TikZ text, judged against the real layout)
+
+PLACE_TOL = 1e-3  # coordinates are written with 4 decimals; every margin of a correct drawing is >= 1/4
+_NUM = r"[-+]?(?:\d+\.?\d*|\.\d+)(?:[eE][-+]?\d+)?"
+_POINT_RE = re.compile(r"\s*\(\s*(%s)\s*,\s*(%s)\s*\)" % (_NUM, _NUM))
+_AT_RE = re.compile(r"\s*at\s*\(\s*(%s)\s*,\s*(%s)\s*\)" % (_NUM, _NUM))
+_TO_RE = re.compile(r"\s*to\s*(?=\[)")
+MARK_KINDS = ("LEAF", "SPECIATION", "DUPLICATION", "HORIZONTAL_TRANSFER", "FULL_LOSS")
+
+
+def _close_bracket(text, i):
+    """Index just after the `]` matching the `[` at text[i]: nested brackets are counted, brackets inside
+    braces (labels) are not, `\\x` is one token.  None when there is no such bracket."""
+    depth = sq = 0
+    n = len(text)
+    while i < n:
+        c = text[i]
+        if c == "\\":
+            i += 2
+            continue
+        if c == "{":
+            depth += 1
+        elif c == "}":
+            depth -= 1
+        elif depth == 0 and c == "[":
+            sq += 1
+        elif depth == 0 and c == "]":
+            sq -= 1
+            if sq == 0:
+                return i + 1
+        i += 1
+    return None
+
+
+def tikz_marks(text):
+    """The positions the drawing gives to its marks: ({kind: [(x, y), ...]}, [((x1, y1), (x2, y2)), ...] for the
+    transfer arrows), or a string saying which statement could not be read (the spelling of a statement is not
+    part of the property: an unreadable one is a note, never an alarm)."""
+    body = text[text.index(r"\begin{tikzpicture}"):]
+    marks = {}
+    for kind in MARK_KINDS:
+        tok, pts, at = TOKENS[kind], [], 0
+        while True:
+            at = body.find(tok, at)
+            if at < 0:
+                break
+            end = _close_bracket(body, at + len(r"\node"))
+            m = _AT_RE.match(body, end) if end is not None else None
+            if m is None:
+                return f"no `at (x,y)` readable after {body[at:at + 60]!r}"
+            pts.append((float(m.group(1)), float(m.group(2))))
+            at = m.end()
+        marks[kind] = pts
+    arrows, at = [], 0
+    tok = TOKENS["transfer"]
+    while True:
+        at = body.find(tok, at)
+        if at < 0:
+            break
+        end = _close_bracket(body, at + len(r"\path"))
+        m1 = _POINT_RE.match(body, end) if end is not None else None
+        m2 = _TO_RE.match(body, m1.end()) if m1 else None
+        end2 = _close_bracket(body, m2.end()) if m2 else None
+        m3 = _POINT_RE.match(body, end2) if end2 is not None else None
+        if m3 is None:
+            return f"no `(x,y) to[..] (x,y)` readable after {body[at:at + 60]!r}"
+        arrows.append(((float(m1.group(1)), float(m1.group(2))), (float(m3.group(1)), float(m3.group(2)))))
+        at = m3.end()
+    return marks, arrows
+
+
+def expected_lost_children(sol):
+    """Multiset of (species s, child species of s in which the copy is lost), from the paths alone: a copy that
+    goes from species s down to the species cs of a child passes through s's child on the way to cs and is lost
+    in the OTHER child of s."""
+    out = []
+    ev, _, _ = expected_events(sol)
+    for p, n in sol_nodes(sol):
+        if "c" not in n:
+            continue
+        s, e = ev[p]
+        kids = [c["s"] for c in n["c"]]
+        if e == "SPECIATION":
+            spans = [(len(s) + 1, cs) for cs in kids]
+        elif e == "DUPLICATION":
+            spans = [(len(s), cs) for cs in kids]
+        else:
+            spans = [(len(s), cs) for cs in kids if anc(s, cs)][:1]
+        for lo, cs in spans:
+            for k in range(lo, len(cs)):
+                out.append((cs[:k], cs[:k] + ("1" if cs[k] == "0" else "0")))
+    return sorted(out)
+
+
+class Regions:
+    """The parts of the picture that belong to each species, read off the REAL layout (rectangles and trunks as
+    layout.compute returned them), in (sequence, across) coordinates: VERTICAL grows along y, HORIZONTAL along x.
+    A species' box holds its trunk at the start, then its fork, then (after the level spacing) the boxes of
+    its two children side by side.  The OWN area of species s is the column of its trunk (across) from the
+    start of its box up to, excluded, the start of the first child box (sequence); for an extant species, the
+    whole column of the trunk.  Own areas of different species are disjoint."""
+
+    def __init__(self, lay, sfwd, orient):
+        self.vert = orient == "V"
+        self.sp = {}
+        for node, sl in lay.items():
+            self.sp[sfwd[node]] = {"rect": self.ranges(sl.rect), "trunk": self.ranges(sl.trunk), "box": sl.rect}
+
+    def ranges(self, r):
+        xs, ys = (r.x, r.x + r.w), (r.y, r.y + r.h)
+        return {"seq": ys if self.vert else xs, "acr": xs if self.vert else ys}
+
+    def sa(self, p):
+        """(sequence, across) of a point of the picture."""
+        return (p[1], p[0]) if self.vert else (p[0], p[1])
+
+    def children(self, s):
+        return [c for c in (s + "0", s + "1") if c in self.sp]
+
+    def own(self, s, p, lead=0.0):
+        """Does the point p (moved back by `lead` along the sequence axis) lie in the own area of s?"""
+        seq, acr = self.sa(p)
+        seq -= lead
+        r, t = self.sp[s]["rect"], self.sp[s]["trunk"]
+        if not t["acr"][0] - PLACE_TOL <= acr <= t["acr"][1] + PLACE_TOL:
+            return False
+        if seq < r["seq"][0] - PLACE_TOL:
+            return False
+        kids = self.children(s)
+        if kids:
+            return seq < min(self.sp[c]["rect"]["seq"][0] for c in kids) - PLACE_TOL
+        return seq <= r["seq"][1] + PLACE_TOL
+
+    def species_of(self, p, lead=0.0):
+        return [s for s in self.sp if self.own(s, p, lead)]
+
+    def across_dist(self, p, s):
+        """Distance, across the tree, from p to the trunk of s."""
+        a = self.sa(p)[1]
+        lo, hi = self.sp[s]["trunk"]["acr"]
+        return max(lo - a, a - hi, 0.0)
+
+    def in_rect(self, p, rect):
+        x, y, w, h = rect.x, rect.y, rect.w, rect.h
+        return x - PLACE_TOL <= p[0] <= x + w + PLACE_TOL and y - PLACE_TOL <= p[1] <= y + h + PLACE_TOL
+
+
+def _matching(adj, n_right):
+    """Size of a maximum matching of the bipartite graph adj: left index -> right indices."""
+    owner = [None] * n_right
+
+    def aug(i, seen):
+        for j in adj[i]:
+            if j not in seen:
+                seen.add(j)
+                if owner[j] is None or aug(owner[j], seen):
+                    owner[j] = i
+                    return True
+        return False
+
+    return sum(1 for i in range(len(adj)) if aug(i, set()))
+
+
+def placement_check(case, out, lay, text, exp_ev, exp_transfers, leaf_lead, info=None):
+    """The geometric clause: every mark of the drawing lies in the species it belongs to.  Returns a description
+    of the first mark found in a wrong place, or None."""
+    got = tikz_marks(text)
+    if isinstance(got, str):
+        if info is not None:
+            info.setdefault("notes", []).append("placement clause not evaluated on some drawings: " + got)
+        return None
+    marks, arrows = got
+    sfwd, sback = sr.index_tree(out.input.species_lca.tree)
+    _, oback = sr.index_tree(out.input.object_tree)
+    reg = Regions(lay, sfwd, case["orient"])
+
+    def show(p):
+        return "(%g,%g)" % p
+
+    # event nodes: a multiset of (species, kind) read off the picture against the reconciliation's
+    seen, where = Counter(), {}
+    for kind in ("LEAF", "SPECIATION", "DUPLICATION", "HORIZONTAL_TRANSFER"):
+        for p in marks[kind]:
+            lead = leaf_lead if kind == "LEAF" else 0.0
+            sps = reg.species_of(p, lead)
+            if not sps:
+                near = [s for s in reg.sp if reg.in_rect(p, reg.sp[s]["box"])]
+                inner = max(near, key=len) if near else None
+                return (f"the drawing puts a {kind} node at {show(p)}, which is in the own area (trunk column, before "
+                        f"the child boxes) of no species" + (f": it lies in the box of species '{inner}' but outside "
+                        f"its trunk column / inside a child box" if inner is not None else ": it lies outside every box"))
+            if len(sps) > 1:  # overlapping species boxes are C14's business
+                if info is not None:
+                    info.setdefault("notes", []).append("placement clause: own areas of species overlap in some layout")
+                return None
+            seen[(sps[0], kind)] += 1
+            where.setdefault((sps[0], kind), p)
+    want = Counter((s, e) for s, e in exp_ev.values())
+    if seen != want:
+        extra = sorted((seen - want).items())
+        missing = sorted((want - seen).items())
+        at = f" (one of them at {show(where[extra[0][0]])})" if extra else ""
+        return (f"event nodes of the DRAWING by the species area they are placed in: too many {extra}{at}, "
+                f"too few {missing}, against the mapping and the evaluator's kinds")
+    # loss markers: in the own area of the species where the loss occurs, on the side of the child that lost the copy
+    seen, where = Counter(), {}
+    for p in marks["FULL_LOSS"]:
+        sps = reg.species_of(p)
+        if not sps:
+            return (f"the drawing puts a loss marker at {show(p)}, which is in the own area (trunk column, before the "
+                    f"child boxes) of no species")
+        if len(sps) > 1:
+            if info is not None:
+                info.setdefault("notes", []).append("placement clause: own areas of species overlap in some layout")
+            return None
+        s = sps[0]
+        kids = reg.children(s)
+        if len(kids) != 2:
+            return f"the drawing puts a loss marker at {show(p)}, inside the extant species '{s}' (no child can lose a copy there)"
+        d0, d1 = reg.across_dist(p, kids[0]), reg.across_dist(p, kids[1])
+        if abs(d0 - d1) <= PLACE_TOL:
+            return (f"the loss marker at {show(p)} in species '{s}' is as far from the trunk of '{kids[0]}' as from "
+                    f"the trunk of '{kids[1]}': it shows no child as the one that lost the copy")
+        side = kids[0] if d0 < d1 else kids[1]
+        seen[(s, side)] += 1
+        where.setdefault((s, side), (p, d0, d1))
+    want = Counter(expected_lost_children(case["sol"]))
+    if seen != want:
+        extra = sorted((seen - want).items())
+        missing = sorted((want - seen).items())
+        at = ""
+        if extra:
+            p, d0, d1 = where[extra[0][0]]
+            s = extra[0][0][0]
+            at = (f" (one of them at {show(p)}: {d0:g} across from the trunk of '{s}0', {d1:g} from the trunk of "
+                  f"'{s}1')")
+        return (f"loss markers of the DRAWING by (species area, nearer child trunk): too many {extra}{at}, too few "
+                f"{missing}, against the losses (species, child that lost the copy) of the reconciliation")
+    # transfer arrows: from the transfer node of v (its box in the layout) to the anchor of v's transferred child,
+    # which lies in the own area of that child's species
+    trans = []
+    for p, (s, e) in sorted(exp_ev.items()):
+        if e != "HORIZONTAL_TRANSFER":
+            continue
+        cp = exp_transfers[p]
+        cs = exp_ev[cp][0]
+        b = lay[sback[s]].branches[oback[p]]
+        anchor = lay[sback[cs]].anchors.get(oback[cp])
+        if anchor is None:
+            return f"transferred child {cp} has no anchor in its species"
+        trans.append((p, s, cp, cs, b.rect, (anchor.x, anchor.y)))
+    for a, z in arrows:
+        if not any(reg.own(cs, z) for _, _, _, cs, _, _ in trans):
+            return (f"the transfer arrow {show(a)} -> {show(z)} ends in the own area of none of the species "
+                    f"{sorted({t[3] for t in trans})} of the transferred children")
+    adj = [[j for j, (a, z) in enumerate(arrows)
+            if reg.in_rect(a, rect) and abs(z[0] - anc_[0]) <= PLACE_TOL and abs(z[1] - anc_[1]) <= PLACE_TOL
+            and reg.own(cs, z)]
+           for (_, _, _, cs, rect, anc_) in trans]
+    if len(arrows) != len(trans) or _matching(adj, len(arrows)) != len(trans):
+        lonely = next((t for t, js in zip(trans, adj) if not js), trans[0] if trans else None)
+        return (f"transfer arrows {[(show(a), show(z)) for a, z in arrows]}: no one-to-one assignment to the transfers "
+                f"such that the arrow of v leaves v's node and ends at the anchor of v's transferred child, in that "
+                f"child's species" + (f" (e.g. transfer {lonely[0]!r} in species '{lonely[1]}': child {lonely[2]!r} is "
+                f"anchored at {show(lonely[5])} in species '{lonely[3]}')" if lonely else ""))
+    if info is not None:
+        info["marks"] = info.get("marks", 0) + sum(len(v) for v in marks.values()) + len(arrows)
+    return None
+
+
+# --------------------------------------------------------------------------
 # the property, evaluated directly
 
 
-def spec_check(case, out, lay, text):
+def spec_check(case, out, lay, text, info=None, dp=None):
     from superrec2.model.reconciliation import NodeEvent
 
     sol = case["sol"]
@@ -446,6 +731,9 @@ def spec_check(case, out, lay, text):
             return f"TikZ statements {got} differ from the events {want}"
         if sorted(map(point_value, transfer_targets(text))) != sorted(map(point_value, targets)):
             return f"transfer arrows end at {transfer_targets(text)}, children anchors are {sorted(targets)}"
+        if dp is None:
+            dp = draw_params(case["orient"], case.get("params"))
+        return placement_check(case, out, lay, text, exp_ev, exp_transfers, dp.extant_gene_diameter / 2, info)
     return None
 
 
@@ -615,7 +903,12 @@ def check_cases(ctx, res, cases):
         except Exception as e:  # a valid reconciliation must be drawable
             res.violation(f"layout/render raises {type(e).__name__}: {e}", case)
             continue
-        bad = spec_check(case, out, lay, text)
+        info = {}
+        bad = spec_check(case, out, lay, text, info)
+        for n in info.get("notes", []):
+            if n not in res.notes and len(res.notes) < 20:
+                res.notes.append(n)
+        res.dist["placement clause: marks of the drawing located"] += info.get("marks", 0)
         if bad:
             res.violation(bad, case)
             continue
